@@ -39,12 +39,14 @@ def run(triples, gtop, reqtop, data):
     if triples and data.draw(st.booleans()):
         for _ in range(data.draw(st.integers(0,4))):
             t = data.draw(st.sampled_from(triples)); t=(t[0], t[1] if t[1].startswith(':') else ':'+t[1], t[2])
-            epidata.setdefault(t, []).append(data.draw(marker))
+            mk = data.draw(marker)
+            epidata.setdefault(t, []).append(mk)
     try:
         g = Graph(triples, top=gtop, epidata=epidata)
     except Exception as e:
         rec(('graph-exc', type(e).__name__), (triples, gtop)); return
     model = Model()
+    if any(isinstance(m, layout.Push) and m.variable not in g.variables() for ms in epidata.values() for m in ms): return
     top = reqtop if reqtop is not None else g.top
     vs = g.variables()
     should_fail = (top not in vs) or not connected(g, top) if (top is not None or triples) else False
